@@ -150,9 +150,12 @@ def norm(
     if isinstance(ord, Real) and np.isinf(ord):
         op = mg_max if ord > 0 else mg_min
         abs_ = absolute(x, constant=constant)
+        if not issubclass(abs_.dtype.type, np.inexact):
+            # numpy.linalg.norm computes in floating point
+            abs_ = abs_.astype(np.float64)
         out = op(abs_, axis=axis, keepdims=keepdims)
 
-        in_ndim = abs_.creator.variables[0].ndim
+        in_ndim = abs_.ndim
 
         if (axis is None and ord is not None and in_ndim == 2) or (
             hasattr(axis, "__len__") and len(axis) > 1
